@@ -240,3 +240,39 @@ func GenSingleRecord(r *mon.Rand) Group {
 		return Group{Lines: []string{fmt.Sprintf("type=%s %s dev=%s prom=256 old_prom=0 auid=%s uid=%s gid=%s ses=%s pid=%s comm=\"%s\" exe=\"/bin/%s\" table=%s family=2 entries=%s%s res=1", t, hdr, u.word("eth"), u.num(), u.num(), u.num(), u.num(), u.num(), u.word("c"), u.word("e"), u.word("tbl"), u.num(), extra)}}
 	}
 }
+
+// NamedTypes lists the names of all record types that have a table name.
+func NamedTypes(nameOf func(uint16) string) []string {
+	var out []string
+	for i := 0; i < 65536; i++ {
+		if n := nameOf(uint16(i)); !strings.HasPrefix(n, "UNKNOWN[") {
+			out = append(out, n)
+		}
+	}
+	return out
+}
+
+// GenTypedCompound builds a compound event whose FIRST record has the given type (user-space style
+// fields), followed by a SYSCALL record with a syscall drawn from a wide list and a few companions.
+// Several events of the same first type with different syscalls exercise the code that merges the
+// record type's normalisation with the syscall's.
+func GenTypedCompound(r *mon.Rand, typ string) Group {
+	u := &uniq{r: r}
+	hdr := fmt.Sprintf("msg=audit(%d.%03d:%d):", 1490000000+r.Intn(1e8), r.Intn(1000), r.Uint32())
+	first := fmt.Sprintf("type=%s %s pid=%s uid=%s auid=%s ses=%s msg='op=%s id=%s acct=\"%s\" exe=\"/usr/sbin/%s\" hostname=%s addr=198.51.%d.%d terminal=%s res=%s'",
+		typ, hdr, u.num(), u.num(), u.num(), u.num(), u.word("op"), u.num(), u.word("acct"), u.word("ux"), u.word("host"), r.Intn(250), r.Intn(250)+1, u.word("term"), mon.Pick(r, []string{"success", "failed"}))
+	sc := mon.Pick(r, []string{"0", "1", "2", "3", "9", "41", "42", "43", "44", "45", "49", "56", "57", "59", "62", "82", "84", "87", "90", "92", "101", "105", "106", "117", "155", "165", "175", "176", "257", "263", "288", "313", "321"})
+	sys := fmt.Sprintf("type=SYSCALL %s arch=c000003e syscall=%s success=yes exit=0 a0=%s a1=%s a2=%s a3=%s items=0 ppid=%s pid=%s auid=%s uid=%s gid=%s euid=%s suid=%s fsuid=%s egid=%s sgid=%s fsgid=%s tty=%s ses=%s comm=\"%s\" exe=\"/usr/bin/%s\" key=\"%s\"",
+		hdr, sc, u.word("x"), u.word("y"), u.word("z"), u.word("w"), u.num(), u.num(), u.num(), u.num(), u.num(), u.num(), u.num(), u.num(), u.num(), u.num(), u.num(), u.word("pts"), u.num(), u.word("comm"), u.word("exe"), u.word("key"))
+	g := Group{Lines: []string{first, sys}}
+	if r.Chance(1, 3) {
+		g.Lines = append(g.Lines, fmt.Sprintf("type=CWD %s  cwd=\"/home/%s\"", hdr, u.word("cwd")))
+	}
+	if r.Chance(1, 3) {
+		g.Lines = append(g.Lines, fmt.Sprintf("type=PROCTITLE %s proctitle=%s", hdr, Hex([]byte(u.word("title")))))
+	}
+	if r.Chance(1, 2) {
+		g.Lines = append(g.Lines, fmt.Sprintf("type=EOE %s ", hdr))
+	}
+	return g
+}
